@@ -330,6 +330,8 @@ CODE = {21: "separated load profiles differ from the model", 23: "hot-utility du
         34: "duty on a utility that cannot reach any demand", 35: "H_net_ut < 0", 36: "H_net_ut > pocket-free GCC",
         37: "hot-utility duties are not the closed-form optimum", 38: "cold-utility duties are not the closed-form optimum",
         39: "utility profile is not the step form of the duties",
+        45: "hot utilities with distinct shifted levels are not served lowest-grade-first (loop order = real supply temperature)",
+        46: "cold utilities with distinct shifted levels are not served lowest-grade-first (loop order = real supply temperature)",
         41: "created hot utilities (defaults/order/temperatures) differ from the model",
         42: "created cold utilities (defaults/order/temperatures) differ from the model",
         43: "no hot utility reaches the top of the process after default completion",
@@ -342,7 +344,8 @@ KIND_D24 = "glide-utility-undersupplied"
 KIND_CROSS = "glide-utility-crosses-gcc"
 KIND_OF_CODE = {31: "utility-sum-open", 32: "utility-sum-open", 33: "negative-utility-duty", 34: "duty-out-of-reach",
                 35: "utility-gcc-infeasible", 36: "utility-gcc-infeasible", 37: "not-closed-form-optimum",
-                38: "not-closed-form-optimum", 39: "utility-profile-not-step", 41: "default-utility-model-mismatch",
+                38: "not-closed-form-optimum", 39: "utility-profile-not-step", 45: "not-lowest-grade-first-mixed-contributions",
+                46: "not-lowest-grade-first-mixed-contributions", 41: "default-utility-model-mismatch",
                 42: "default-utility-model-mismatch", 43: "default-utility-missing", 44: "default-utility-missing",
                 51: "total-process-utility-sums", 52: "total-process-utility-sums"}
 
